@@ -241,7 +241,8 @@ func runsFor(prop, tier string) []run {
 			{"clone-while-controller-polls", mk(polling(src2), []string{"CloneProc", "Step", "StepX"}, 0, 0, 3), pick(24, 30), minutes(pickf(0.8, 4))},
 			{"clone-with-source-writes-and-outage", mk(polling(src1), []string{"CloneProc", "Step", "StepX", "W0", "SrcDown", "SrcUp"}, 0, 1, 3), pick(24, 32), minutes(pickf(1.0, 6))},
 			{"clone-killed-and-restarted", mk(polling(src1), []string{"CloneProc", "Step", "StepX", "Kill"}, 1, 0, 2), pick(22, 40), minutes(pickf(0.6, 6))},
-			{"clone-with-a-failing-extent-query", mk(polling(src2), []string{"CloneProc", "Step", "StepX", "FiemapFail"}, 0, 1, 3), pick(24, 32), minutes(pickf(0.5, 4))},
+			// the cloned snapshot overwrites a block that the older snapshot holds as well
+			{"clone-with-a-failing-extent-query", mk(polling([]string{"Reg:0", "Start:0", "W:0", "Snap:0", "W:0", "W:0", "W:0", "W:0", "Snap:0", "W:0"}), []string{"CloneProc", "Step", "StepX", "FiemapFail"}, 0, 1, 7), pick(24, 32), minutes(pickf(0.5, 4))},
 			{"clone-vs-start-all-interleavings", mk(src2, []string{"BReg", "BStart", "StepX", "CloneProc", "Step"}, 0, 0, 3), pick(34, 40), minutes(pickf(1.0, 10))},
 		}
 	case "C13":
